@@ -31,11 +31,16 @@ type verifInConn struct {
 	onRead   func()
 	mustArm  bool // reads must happen under an armed read deadline
 	unarmed  int
+	expired  bool  // a deadline expired and was not renewed yet: every read fails at once
+	bounds   []int // packet boundaries of the inbound stream (offsets)
+	armMid   bool  // with PauseTimeout set, reads inside a packet need an armed deadline
+	midUnarmed int
 }
 
 func verifNewBufr(conn net.Conn) *bufio.Reader { return bufio.NewReaderSize(conn, readBufSize) }
 
 func (c *verifInConn) SetReadDeadline(t time.Time) error {
+	c.expired = false
 	c.verifConn.SetReadDeadline(t)
 	if c.rArmed {
 		c.progress = false
@@ -50,6 +55,21 @@ func (c *verifInConn) Read(p []byte) (int, error) {
 	}
 	if c.mustArm && !c.rArmed {
 		c.unarmed++
+	}
+	if c.expired {
+		// like a real connection: a passed deadline stays in force until it is set again
+		return 0, verifTimeoutErr{}
+	}
+	if c.armMid && !c.rArmed && c.rpos < len(c.in) {
+		atBoundary := c.rpos == 0
+		for _, b := range c.bounds {
+			if b == c.rpos {
+				atBoundary = true
+			}
+		}
+		if !atBoundary {
+			c.midUnarmed++
+		}
 	}
 	if c.closed {
 		return 0, net.ErrClosed
@@ -66,6 +86,7 @@ func (c *verifInConn) Read(p []byte) (int, error) {
 			c.rfaults--
 			c.expiries++
 			c.progress = false
+			c.expired = true
 			return 0, verifTimeoutErr{}
 		}
 	}
@@ -87,7 +108,11 @@ func verifPayloadSizes(h int) []int {
 	// body sizes around the buffer: B-1, B, B+1, B+2, 2B+1; plus 0 and 1
 	b := verifB
 	out := []int{0, 1}
-	for _, body := range []int{b - 1, b, b + 1, b + 2, 2*b + 1} {
+	bodies := []int{b - 1, b, b + 1, b + 2, 2*b + 1}
+	if verifParam("long", 0) == 1 {
+		bodies = append(bodies, 130) // two-byte remaining length
+	}
+	for _, body := range bodies {
 		if body-h > 1 {
 			out = append(out, body-h)
 		}
@@ -135,6 +160,7 @@ func verifInboundStream(maxPackets int, bigAllowed bool) []verifInPacket {
 // exactly-once messages aside), acknowledgements equal the reference
 // receiver's, each after ownership.
 func verifH_C06_stream() {
+	verifUnwind(400)
 	store := &verifStore{}
 	rugged := &ruggedPersistence{Persistence: store}
 	cfg := &Config{PauseTimeout: verifTimeoutChoice()}
@@ -158,7 +184,9 @@ func verifH_C06_stream() {
 	ps := verifInboundStream(verifParam("packets", 2), verifParam("big", 1) == 1)
 	for _, p := range ps {
 		conn.in = append(conn.in, p.bytes...)
+		conn.bounds = append(conn.bounds, len(conn.in))
 	}
+	conn.armMid = cfg.PauseTimeout != 0
 
 	// reference receiver
 	owned := map[uint16]bool{} // exactly-once identifiers between delivery and PUBREL
@@ -203,6 +231,7 @@ func verifH_C06_stream() {
 			var big *BigMessage
 			verifAssert(!errors.As(err, &big), "C06: a big message was returned that the broker never sent")
 			verifAssert(verifBytesEq(conn.wlog, wantAcks), "C04/C07: acknowledgements on the wire differ from the reference receiver (missing, extra, reordered or wrong identifier)")
+			verifAssert(conn.midUnarmed == 0, "C13: a read inside an incomplete packet happens without a read deadline although PauseTimeout is set (a stalling broker blocks the read routine)")
 			verifReach("stream-end")
 			if conn.expiries > 0 {
 				verifReach("expiry-with-progress")
